@@ -27,7 +27,7 @@ Fixpoint session (cfg : pn_cfg) (st : pn_state) (req : str) (items : list item)
   | it :: r =>
       match it with
       | IUser x =>
-          rest <- session cfg st x r ;; Ok ([cmd_nick x] :: rest)
+          rest <- session cfg st x r ;; Ok ([commands_nick st x] :: rest)
       | ICollide s =>
           x <- pn_step cfg st (numeric_of s req) ;;
           rest <- session cfg (fst x) (next_req req (snd x)) r ;; Ok (snd x :: rest)
@@ -40,7 +40,7 @@ Fixpoint session (cfg : pn_cfg) (st : pn_state) (req : str) (items : list item)
 (* the nickname GetNick reports: the configured one until 001, then what 001 and our own
    NICK messages established *)
 Definition current_nick (cfg : pn_cfg) (st : pn_state) : str :=
-  match st with [] => pc_nick cfg | _ => st end.
+  match ps_nick st with [] => pc_nick cfg | n => n end.
 
 
 (* What the statement asks of the default handler, written as its own machine: every
